@@ -77,8 +77,17 @@ def random_scenario(rng, magic, real_xd):
     for _ in range(n):
         r = RUNNING if rng.random() < 0.4 else DONE
         hosts.append((r[0], r[0], r[1], True))
-    hosts[rng.randrange(n)] = fail_host(kind, magic, real_xd)
-    return {"S": rng.choice([0, 1]), "k": 1, "fanout": rng.choice([1, 2, n, n + 1]), "hosts": hosts, "kind": kind}
+    fi = rng.randrange(n)
+    hosts[fi] = fail_host(kind, magic, real_xd)
+    fanout = rng.choice([1, 2, n, n + 1])
+    # a running sibling never ends by itself: the failing target must still get a slot (else the run cannot end at all)
+    running = 0
+    for i in range(fi):
+        if hosts[i][0] == RUNNING[0]:
+            running += 1
+            if running > fanout - 1:
+                hosts[i] = (DONE[0], DONE[0], DONE[1], True)
+    return {"S": rng.choice([0, 1]), "k": 1, "fanout": fanout, "hosts": hosts, "kind": kind}
 
 
 def harness_line(scn):
@@ -161,6 +170,7 @@ def run_scripted(ctx, exe, env, scns, bits, dist, cov, distinct):
             for i in todo:                          # many failures at once are not a matter of timing
                 impl[i] = one(lines[i])
         idxs = todo
+    dist["k_started_during_exit"] = len(set(judge_scripted.late_starts))
     for s, l in zip(scns, lines):
         cov["evaluations"] += 1
         dist["k_scripted"] = dist.get("k_scripted", 0) + 1
@@ -174,6 +184,7 @@ def judge_scripted(ctx, scns, lines, impl, bits, report):
     'retry' = a mismatch that is reported only when it shows again"""
     verdicts = ["ok"] * len(scns)
     recs = [None] * len(scns)
+    late_starts = judge_scripted.late_starts
     for i, (s, l, (ans, crash)) in enumerate(zip(scns, lines, impl)):
         case = {"op": l, "kind": s["kind"], "k_scn": {"S": s["S"], "k": s["k"], "fanout": s["fanout"], "kind": s["kind"],
                                                       "hosts": [list(h) for h in s["hosts"]]}}
@@ -215,8 +226,11 @@ def judge_scripted(ctx, scns, lines, impl, bits, report):
             bad = "dsh() %s, model says the process is ended by `%s`" % ("returned" if returned else "did not return", pm["how"])
         elif pm["sig"] != signalled:
             bad = "targets that were sent SIGTERM: %s, model (exactly those inside their poll loop): %s" % (signalled, pm["sig"])
-        elif late:
-            bad = "targets %s were started after the run had been ended" % late
+        if late and not bad:
+            # exit() is not atomic: between the call and the end of the process the other threads still run -- a signalled
+            # sibling's worker ends, frees its slot, and the dispatcher may still call rcmd_connect for a pending target
+            # (cut off when the process ends).  The model's `exited` is the CALL of exit; this is recorded, not judged.
+            late_starts.append(l)
         if bad:
             if report:
                 ctx.disagreement("exit model (-k transition system) vs dsh()", bad, case)
@@ -235,6 +249,9 @@ def judge_scripted(ctx, scns, lines, impl, bits, report):
                              dict(case, where="dsh()-k", spec_query=spec_query(s, status)))
             verdicts[i] = "retry"
     return verdicts
+
+
+judge_scripted.late_starts = []     # runs in which a pending target was started while exit() was under way
 
 
 # ------------------------------------------------------------------------------------------------ the real binary
@@ -357,7 +374,8 @@ def judge_cli(ctx, c, argv, obs, bits, report):
     elif [i for i in pm["sig"] if i in tcmd] != obs["term"]:
         bad = "commands that received SIGTERM: %s, model (exactly the targets inside their poll loop): %s" % (
             obs["term"], [i for i in pm["sig"] if i in tcmd])
-    elif sorted(i for i, ch in enumerate(pm["ph"]) if ch != "n") != obs["started"]:
+    elif not set(i for i, ch in enumerate(pm["ph"]) if ch != "n") <= set(obs["started"]):
+        # (a target the model has as not started may have been started while exit() was under way: not judged)
         bad = "commands started: %s, model %s" % (obs["started"], pm["ph"])
     elif obs["wall"] > 8:
         bad = "pdsh -k ended only after %.1f s (the siblings sleep 12 s): it did not end at the first failure" % obs["wall"]
